@@ -44,6 +44,10 @@ Definition spec_topic_ok (v : version) (s : list Z) : bool :=
   negb (mem 43 s) && negb (mem 35 s) && (Z.of_nat (length s) <=? 65535)
   && (is_v5 v || negb (Nat.eqb (length s) 0)).
 
+(* the same in Prop: what makes a publish topic unacceptable *)
+Definition topic_bad (v : version) (t : list Z) : Prop :=
+  In 43 t \/ In 35 t \/ (v <> V5 /\ t = []) \/ 65535 < Z.of_nat (length t).
+
 Definition spec_qos_ok (q : Z) : bool := (0 <=? q) && (q <=? 2).
 
 (* publish() docstring: payload may be str, bytes, bytearray, int, float or None;
